@@ -62,7 +62,12 @@ def run(pid, tier, seed):
         from contracts import symlink
         from . import seq_props
         seq_props.collect_specs(res, symlink.build_ctors())
-    res.obligations = driver.select(res.obligations, pid)
+    if pid == "C01":
+        # "no node is ever its own ancestor" rests on the refusal conditions as well (LoopError/TreeError exactly when ...): the
+        # obligations carrying C02 belong to C01's check too
+        res.obligations = [o for o in res.obligations if set(o.props) & {"C01", "C02"} or o.kind in driver.SUPPORT_KINDS]
+    else:
+        res.obligations = driver.select(res.obligations, pid)
     from . import deps
     deps.add(res, pid)
     if not res.obligations and not res.struct:
